@@ -38,7 +38,7 @@ PROOF_FAILURE_PATTERNS = (
     "could not prove termination", "might not be allowed", "unable to prove", "fails to satisfy",
 )
 LOG_MACROS = ("trace", "debug", "info", "warn", "error")
-SUBST_KINDS = ("closure-contract", "std-wrap", "verus-syntax", "split-or-guard")
+SUBST_KINDS = ("closure-contract", "std-wrap", "std-wrap-all", "verus-syntax", "split-or-guard")
 
 
 class ExtractError(Exception):
@@ -53,18 +53,25 @@ def _parse_kv(line):
 
 
 def _find_fn(src, impl_re, name):
-    lo, hi, want, base = 0, None, 0, None
-    if impl_re:
-        blk = rustscan.find_block(src, impl_re)
-        if blk is None:
-            raise ExtractError(f"lost anchor: no item matching /{impl_re}/")
-        lo, hi = blk.body_open + 1, blk.body_close
-        want = 0
     hdr = r"(?:pub(?:\([a-z:_ ]+\))?\s+)?(?:const\s+)?(?:async\s+)?(?:unsafe\s+)?fn\s+%s\b" % re.escape(name)
-    it = rustscan.find_block(src, hdr, lo, hi, want)
-    if it is None:
-        raise ExtractError(f"lost anchor: fn {name} not found" + (f" in /{impl_re}/" if impl_re else ""))
-    return it
+    if not impl_re:
+        it = rustscan.find_block(src, hdr, 0, None, 0)
+        if it is None:
+            raise ExtractError(f"lost anchor: fn {name} not found")
+        return it
+    # the impl header is matched as a whole word sequence followed by `{` / `where`; several impl blocks may
+    # share a header (e.g. two `impl QueryParameters<'_>`): the fn must be found in exactly one of them
+    blocks = rustscan.find_block(src, impl_re + r"(?=\s*(\{|where\b))", all_matches=True)
+    if not blocks:
+        raise ExtractError(f"lost anchor: no item matching /{impl_re}/")
+    hits = []
+    for blk in blocks:
+        it = rustscan.find_block(src, hdr, blk.body_open + 1, blk.body_close, 0)
+        if it is not None:
+            hits.append(it)
+    if len(hits) != 1:
+        raise ExtractError(f"lost anchor: fn {name} found {len(hits)} times in /{impl_re}/")
+    return hits[0]
 
 
 def _preceding_attr_lines(src, start):
@@ -242,7 +249,7 @@ def _validate_subst(kind, old, new, template_text):
             body_o = body_o[1:-1]
         if rustscan.norm_ws(body_o) != rustscan.norm_ws(mn.group(4)):
             raise ExtractError("closure-contract: closure body is not verbatim")
-    elif kind == "std-wrap":
+    elif kind in ("std-wrap", "std-wrap-all"):
         m = re.match(r"\s*(\w+)\s*\(", new)
         if not m:
             raise ExtractError("std-wrap: replacement must be a call of a wrapper fn")
@@ -317,6 +324,16 @@ def extract_fn(repo, d, template_text):
     for s in d.get("subst", []):
         old, new, kind = s["old"].strip(), s["new"].strip(), s["kind"]
         whole = sig + body
+        if kind == "std-wrap-all":
+            # every occurrence of a receiver expression is routed through a trusted accessor
+            cnt = whole.count(old)
+            if cnt < 1:
+                raise ExtractError(f"lost anchor: SUBST std-wrap-all text does not occur: {old[:80]!r}")
+            _validate_subst(kind, old, new, template_text)
+            whole = whole.replace(old, new)
+            sig, body = _resplit(whole)
+            tr.append({"kind": kind, "old": old, "new": new, "occurrences": cnt})
+            continue
         if "$" in old:
             rx, names = _meta_regex(old)
             ms = list(re.finditer(rx, whole))
@@ -504,10 +521,10 @@ def extract_type(repo, d):
         raise ExtractError(str(e))
     if it is None:
         # tuple struct / type alias: one line ending in `;`
-        m = [x for x in re.finditer(r"^(?:pub(?:\([a-z:_ ]+\))?\s+)?(?:struct|type)\s+%s\b[^;{]*;" % re.escape(d["name"]), src, re.M)]
+        m = [x for x in re.finditer(r"^[ \t]*(?:pub(?:\([a-z:_ ]+\))?\s+)?(?:struct|type|const)\s+%s\b[^;{]*;" % re.escape(d["name"]), src, re.M)]
         if len(m) != 1:
             raise ExtractError(f"lost anchor: type {d['name']} not found in {d['file']}")
-        text = m[0].group(0)
+        text = m[0].group(0).strip()
         tr = []
         if d.get("vis") == "pub":
             text = re.sub(r"^(pub(\([a-z:_ ]+\))?\s+)?", "pub ", text)
